@@ -1184,6 +1184,7 @@ def c07(run):
         if mt is None:
             continue
         algo, acct, i = mt
+        algo = None if algo is None else str(algo)     # the library formats whatever value is there into the key
         want = natref.de(algo, acct) if algo in methods else True
         got = a.startswith("ok ")
         okv = (got in want) if isinstance(want, set) else (got == want)
